@@ -641,6 +641,15 @@ func (rp *replayer) searchPanic() {
 
 // runReplayTest injects the test with -overlay and runs it.
 func runReplayTest(repo, pkgDir, src string) string {
+	return runReplayTestT(repo, pkgDir, src, 60)
+}
+
+// runHarness: the same for the bounded harnesses, which may run for minutes.
+func runHarness(repo, pkgDir, src string) string {
+	return runReplayTestT(repo, pkgDir, src, 900)
+}
+
+func runReplayTestT(repo, pkgDir, src string, timeoutS int) string {
 	tmp, err := os.MkdirTemp("", "govc-replay")
 	if err != nil {
 		return "error: " + err.Error()
@@ -652,7 +661,7 @@ func runReplayTest(repo, pkgDir, src string) string {
 	ovb, _ := json.Marshal(ov)
 	ovf := filepath.Join(tmp, "overlay.json")
 	os.WriteFile(ovf, ovb, 0o644)
-	cmd := exec.Command("bash", "-c", fmt.Sprintf("ulimit -v 8000000; go test -overlay %s -vet=off -count=1 -timeout 60s -run '^TestGovcReplay$' -v .", ovf))
+	cmd := exec.Command("bash", "-c", fmt.Sprintf("ulimit -v 8000000; go test -overlay %s -vet=off -count=1 -timeout %ds -run '^TestGovcReplay$' -v .", ovf, timeoutS))
 	cmd.Dir = pkgDir
 	cmd.Env = goEnv()
 	var buf bytes.Buffer
